@@ -4,6 +4,7 @@ import (
 	"bytes"
 	"fmt"
 	"net"
+	"reflect"
 
 	"github.com/free5gc/nas/nasConvert"
 
@@ -101,6 +102,9 @@ func c16Roundtrip(c *core.Ctx, k *core.Case) {
 		c.Fail(k, "pco-unmarshal-error", fmt.Sprintf("UnMarshal(Marshal(l)): %v (bytes %s)", err, hx(got)))
 		return
 	}
+	if ch, _ := appendProbe(reflect.ValueOf(back)); ch {
+		c.Fail(k, "decoded-slices-share-capacity:PCO", fmt.Sprintf("appending to the contents of one unit parsed from %s changed another unit", hx(got)))
+	}
 	if len(back.ProtocolOrContainerList) != len(units) {
 		c.Fail(k, "pco-roundtrip", fmt.Sprintf("%d units parsed, %d marshalled (bytes %s)", len(back.ProtocolOrContainerList), len(units), hx(got)))
 		return
@@ -151,6 +155,18 @@ func pcoJudgeParse(c *core.Ctx, k *core.Case, in []byte) {
 // oracle "pco-parse": B=[bytes]
 func c16Parse(c *core.Ctx, k *core.Case) {
 	c.Eval(1)
+	if !capacityIndependent(k.B[0], func(b []byte) uint64 {
+		p := nasConvert.NewProtocolConfigurationOptions()
+		err := p.UnMarshal(b)
+		if err == nil {
+			if ch, _ := appendProbe(reflect.ValueOf(p)); ch {
+				c.Fail(k, "decoded-slices-share-capacity:PCO", fmt.Sprintf("appending to the contents of one unit parsed from %s changed another unit", hx(k.B[0])))
+			}
+		}
+		return digestOf(err, p)
+	}) {
+		c.Fail(k, "parse-depends-on-capacity", fmt.Sprintf("the %d octets %s parse differently from a slice of exactly that capacity and from the prefix of a larger array", len(k.B[0]), hx(k.B[0])))
+	}
 	pcoJudgeParse(c, k, cloneB(k.B[0]))
 }
 
@@ -253,6 +269,17 @@ func c16ErrCause(c *core.Ctx, k *core.Case) {
 	if n > 0 {
 		if o2 := nasConvert.PDUSessionReactivationResultErrorCauseToBuf(ids, causes[:n-1]); o2 != nil {
 			c.Fail(k, "errcause-mismatch-accepted", "lists of different length gave a result")
+		}
+	}
+	// every other way the two lists can disagree in length
+	for _, d := range [][2]int{{n, n + 1}, {n, n + 3}, {n + 1, n}, {n, 2 * n}, {1, n + 1}} {
+		a, b := r.Bytes(d[0]), r.Bytes(d[1])
+		if len(a) == len(b) || len(a) == 0 {
+			continue
+		}
+		if o2 := nasConvert.PDUSessionReactivationResultErrorCauseToBuf(a, b); o2 != nil {
+			c.Fail(k, "errcause-mismatch-accepted", fmt.Sprintf("%d identities and %d causes gave the result %x", len(a), len(b), o2))
+			break
 		}
 	}
 }
